@@ -308,6 +308,29 @@ def sp5(proj, rep):
             n -= 1
         else:
             rep.violation('SP5', f.qual, f'`{t[:80]}` pairs halves {halves}: the symplectic form must cross the X and Z halves (and be reduced mod 2)', m, ret)
+    # every pairing of a half of v0 with a half of v1 (any formulation, any branch) crosses the halves
+    def _half(e):
+        if not isinstance(e, ast.Subscript) or not isinstance(e.value, ast.Name) or e.value.id not in f.all_params:
+            return None
+        sl = e.slice.elts[-1] if isinstance(e.slice, ast.Tuple) else e.slice
+        if not isinstance(sl, ast.Slice) or sl.step is not None:
+            return None
+        if sl.lower is None and sl.upper is not None and _t(sl.upper) == 'N0':
+            return (e.value.id, 'lo')
+        if sl.upper is None and sl.lower is not None and _t(sl.lower) == 'N0':
+            return (e.value.id, 'hi')
+        return None
+    for c in ast.walk(f.node):
+        pair = None
+        if isinstance(c, ast.Call) and _t(c.func).split('.')[-1] in ('dot', 'vdot', 'inner', 'matmul', 'logical_and', 'bitwise_and', 'multiply') and len(c.args) >= 2:
+            pair = (c.args[0], c.args[1])
+        elif isinstance(c, ast.BinOp) and isinstance(c.op, (ast.BitAnd, ast.Mult, ast.MatMult)):
+            pair = (c.left, c.right)
+        if pair is None:
+            continue
+        ha, hb = _half(pair[0]), _half(pair[1])
+        if ha and hb and ha[0] != hb[0] and ha[1] == hb[1]:
+            rep.violation('SP5', f.qual, f'`{_t(c)[:70]}` pairs the {ha[1]} half of {ha[0]} with the {hb[1]} half of {hb[0]}: the symplectic form crosses the X and Z halves', m, c)
     f = proj.func(f'{MOD}.transvection')
     upd = next((s for s in ast.walk(f.node) if isinstance(s, ast.Assign) and isinstance(s.targets[0], ast.Name) and s.targets[0].id == 'x'), None)
     n += 1
